@@ -21,6 +21,9 @@ mod common;
 /// Functional core testable separately from I/O
 mod core;
 mod dht;
+#[cfg(mainline_verif)]
+#[doc(hidden)]
+pub mod verif;
 
 #[cfg(feature = "async")]
 pub use dht::async_dht;
